@@ -120,6 +120,10 @@ class Wavefunction:
 
     def __setitem__(self, idx, val):
         old_val = self._amplitude_vector[idx]
+        if isinstance(old_val, np.ndarray):
+            # slices (and rows of a column vector) are views of the array that
+            # is about to be overwritten: keep a copy for the rollback
+            old_val = old_val.copy()
         self._amplitude_vector[idx] = val
 
         try:
